@@ -781,6 +781,8 @@ func (i *interpreter) callBuiltin(caller *frame, callpos token.Pos, fn *ssa.Buil
 			return len((*x).(array))
 		case []value:
 			return len(x)
+		case *symSlice:
+			return x.n
 		case *omap:
 			return x.length()
 		case *vchan:
@@ -800,6 +802,8 @@ func (i *interpreter) callBuiltin(caller *frame, callpos token.Pos, fn *ssa.Buil
 			return cap((*x).(array))
 		case []value:
 			return cap(x)
+		case *symSlice:
+			return x.n
 		case *vchan:
 			if x == nil {
 				return 0
